@@ -3,5 +3,7 @@ CONSTANTS DSpan = 12
           NDay = 7
           MJMax = 13
           MYears = {2000}
+          WSpanAbs = {0, 1, 2, 5}
+          WKAbs = {1, 2, 3}
 INIT Init
 NEXT NextGen
